@@ -1,6 +1,7 @@
 import Driver.Ops.Addr
 import Driver.Ops.Cidr
 import Driver.Ops.Conc
+import Driver.Ops.Jinja
 import Driver.Ops.Lifecycle
 import Driver.Ops.Merge
 import Driver.Ops.TextFile
@@ -15,6 +16,7 @@ def allOps : List (String × Op) :=
   Driver.Addr.ops ++
   Driver.Cidr.ops ++
   Driver.Conc.ops ++
+  Driver.Jinja.ops ++
   Driver.Lifecycle.ops ++
   Driver.Merge.ops ++
   Driver.TextFile.ops ++
